@@ -15,7 +15,7 @@ CONSTANTS MaxLen, ExportLen,
           AddScales, ModScales,   \* scales used by add / modify on custom registries (subsets of Scales)
           ReadKeys, ReadProbes,   \* arguments of `in` / Unit(str)
           BinP, BinF,             \* unit strings / operators of binary operations (subsets of BinProbes / BinOps)
-          CopyP,                  \* unit strings of pickled quantities / copied units
+          CopyP, PickleP,         \* unit strings of copied units / of pickled quantities
           ConvHows                \* conversion methods (subset of Hows)
 
 \* a re-binding with bypass_validation=True is only generated as the LAST call of a history: on today's code it
@@ -33,7 +33,7 @@ Creations ==
   \/ NewPlain(TRUE, "cgs")
   \/ \E src \in RegIds, defs \in BOOLEAN : NewLutAlias(src, defs)
   \/ \E src \in RegIds : NewLutCopy(src) \/ FromJson(src) \/ DeepCopyReg(src)
-  \/ \E src \in RegIds, p \in CopyP : Unpickle(src, p)
+  \/ \E src \in RegIds, p \in PickleP : Unpickle(src, p)
   \/ \E src \in RegIds, p \in CopyP, deep \in BOOLEAN : UnitCopy(src, p, deep)
 NsOps(r) == MkUnitSystem(r, "kfoo") \/ MkUnitSystem(r, "km") \/ MkUnitSystem(r, "foo") \/ AddSymbols(r) \/ AddConstants(r)
 MixedOps ==
